@@ -312,6 +312,10 @@ def run(ck):
     if res["rc"] != 0 or not os.path.exists(trace):
         raise Inconclusive("executor failed:\n" + res["out"][-3000:])
     ok, recs = validate_all(ck, trace, "gen", "TLC-generated behaviour")
+    ndiv = sum(1 for l in res["out"].splitlines() if "C11-DIVERGED " in l)
+    if ok and ndiv:
+        # the real pipe stopped matching a schedule's byte offsets although every recorded step conforms
+        raise Inconclusive("%d generated schedules could not be applied to the real pipe, yet all recorded steps conform" % ndiv)
     if ok:
         negative_controls(ck, recs)
         ck.cov["samples"].append({"generated_behaviour_first_events": [
